@@ -1,0 +1,20 @@
+//go:build verif && linux && !android && !e2e_testing
+
+package udp
+
+import "net/netip"
+
+// Verification hooks for the receive path (engine `udprecv`). Thin exports only, no behaviour.
+
+func VerifDeliverSegments(r EncReader, from netip.AddrPort, payload []byte, segSize int) {
+	deliverSegments(r, from, payload, segSize)
+}
+
+// VerifParseRecvCmsg runs parseRecvCmsg on a msghdr whose ancillary buffer is (control, controllen).
+func VerifParseRecvCmsg(control *byte, controllen int) int {
+	hdr := &msghdr{Control: control}
+	setMsgControllen(hdr, controllen)
+	return parseRecvCmsg(hdr)
+}
+
+const VerifUDPGROCmsgPayload = udpGROCmsgPayload
